@@ -116,13 +116,16 @@ class ChromBuilder:
 
 
 def gen_chain_rgfa(rng, n_chrom=None, scaffolds=None, id_style=None, defects=None, len_hi=20,
-                   end_style=None, kinds=None):
+                   end_style=None, kinds=None, names=None):
     """defects: dict chrom_index -> one of 'tip', 'cycle3', 'cycle3_inner', 'hap_ap' (non-chain
     shapes) ; 'joined' joins chromosome i with i+1 through a haplotype node."""
     g = Graph()
     ids = IdMaker(rng, id_style or rng.choice(["s", "s", "name", "num"]))
     n_chrom = n_chrom or rng.choice([1, 1, 2, 3])
-    names = rng.sample(REF_NAMES[:5] + ["chr7", "chr21", "chrY"], n_chrom)
+    if names is not None:
+        n_chrom = len(names)
+    else:
+        names = rng.sample(REF_NAMES[:5] + ["chr7", "chr21", "chrY"], n_chrom)
     haps = [{"name": n, "rank": 1 + i, "cursor": rng.randint(0, 3000)} for i, n in enumerate(rng.sample(HAP_NAMES, rng.randint(1, 4)))]
     defects = defects or {}
     g.chroms = []
